@@ -531,6 +531,57 @@ func c03Acceptance(c *Ctx) {
 			r.Check(len(bad) == 0 && nret > 0, "R03.A", "accept:encrypted/nothing-refuses-after-the-key-check", c.pos(key.If.Cond.Pos()), sprintf("%d exit(s) behind the equal edge of the msg_key comparison; %s", nret, strings.Join(bad, "; ")))
 		}
 	}
+	// transport.ReadMsg opens what the readers opened: the only refusals of its own are the 4-byte error-code frame
+	// and the msg_id parity test - a check of an opened field against session state (the salt the session happens to
+	// hold) turns away packets a conformant server sealed, bad_server_salt itself among them
+	if f := c.P.Func(load.TransPkg, "*transport", "ReadMsg"); f != nil {
+		var parity *an.Cond
+		for _, i := range an.Ifs(f) {
+			cd, ok := an.Classify(i)
+			if !ok {
+				continue
+			}
+			o := ""
+			if cd.X != nil {
+				o += tr.OriginString(cd.X)
+			}
+			if strings.Contains(o, "GetMsgID") {
+				parity = cd
+			}
+		}
+		var bad []string
+		n := 0
+		for _, cs := range an.Calls(f) {
+			switch cs.Name {
+			case "fmt.Errorf", "errors.New", "github.com/pkg/errors.New", "github.com/pkg/errors.Errorf":
+			default:
+				continue
+			}
+			n++
+			okGuard := false
+			if parity != nil {
+				for _, e := range []an.Edge{{From: parity.If.Block(), Succ: 0}, {From: parity.If.Block(), Succ: 1}} {
+					if len(an.Guarded(f, []an.Edge{e}, []ssa.Instruction{cs.Instr})) == 0 {
+						okGuard = true
+					}
+				}
+				// the parity test is two comparisons (mod != 1 && mod != 3): the refusal sits behind the second
+				for _, i := range an.Ifs(f) {
+					if cd, ok := an.Classify(i); ok && cd.X == parity.X {
+						for k := 0; k < 2; k++ {
+							if len(an.Guarded(f, []an.Edge{{From: i.Block(), Succ: k}}, []ssa.Instruction{cs.Instr})) == 0 {
+								okGuard = true
+							}
+						}
+					}
+				}
+			}
+			if !okGuard {
+				bad = append(bad, "the error made at "+c.pos(cs.Pos())+" is not the parity refusal")
+			}
+		}
+		r.Check(len(bad) == 0, "R03.A", "accept:transport/no-refusal-of-its-own", c.pos(f.Pos()), sprintf("%d error(s) made by ReadMsg itself; %s", n, strings.Join(bad, "; ")))
+	}
 	for _, t := range []struct{ pkg, recv, name, key string }{
 		{load.MsgPkg, "", "DeserializeEncrypted", "accept:encrypted"},
 		{load.MsgPkg, "", "DeserializeUnencrypted", "accept:plain"},
